@@ -18,6 +18,9 @@ import (
 	"fmt"
 	"sort"
 	"strconv"
+	"strings"
+	"sync"
+	"sync/atomic"
 	"testing"
 
 	"github.com/zeromicro/go-zero/core/logx"
@@ -228,8 +231,147 @@ func vfKubeHistory(c *kit.Case) {
 	}
 }
 
+// vfKubeConcurrent: informer callbacks and direct Update calls for ONE Endpoints object
+// arrive from several goroutines at once (kubeBuilder calls handler.Update from Build
+// while the informer, started just before, may already deliver OnAdd / OnUpdate). Which of
+// them the handler serialises last is not known to the harness, so nothing is asserted
+// about the concurrent phase itself (only "no panic"). Then, with every goroutine joined, ONE further callback is made sequentially; after it
+// the list most recently handed to the update function must set-equal the addresses of
+// the object that callback carries ("always publishes exactly the current addresses").
+func vfKubeConcurrent(c *kit.Case) {
+	r := c.R
+	k := &vfKube{c: c, reported: map[string]bool{}}
+	var mu sync.Mutex
+	var last []string
+	calls := 0
+	h := NewEventHandler(func(addrs []string) {
+		mu.Lock()
+		calls++
+		last = append([]string(nil), addrs...)
+		mu.Unlock()
+	})
+	k.h = h
+	var steps []string
+	cur := k.vfRandObj()
+	h.Update(cur)
+	steps = append(steps, "Update("+vfDescr(cur)+")")
+	for round, rounds := 0, r.Range(1, 4); round < rounds; round++ {
+		ng := r.Range(2, 4)
+		type call struct {
+			descr string
+			fn    func()
+		}
+		var plan [][]call
+		for g := 0; g < ng; g++ {
+			var cs []call
+			for j, n := 0, r.Range(1, 4); j < n; j++ {
+				o := k.vfRandObj()
+				switch r.Pick(4, 3, 3, 1) {
+				case 0:
+					cs = append(cs, call{"Update(" + vfDescr(o) + ")", func() { h.Update(o) }})
+				case 1:
+					cs = append(cs, call{"OnAdd(" + vfDescr(o) + ")", func() { h.OnAdd(o, false) }})
+				case 2:
+					old := k.vfRandObj()
+					cs = append(cs, call{"OnUpdate(" + vfDescr(old) + ", " + vfDescr(o) + ")", func() { h.OnUpdate(old, o) }})
+				default:
+					cs = append(cs, call{"OnDelete(" + vfDescr(o) + ")", func() { h.OnDelete(o) }})
+				}
+			}
+			plan = append(plan, cs)
+		}
+		var ds []string
+		for _, cs := range plan {
+			var d []string
+			for _, x := range cs {
+				d = append(d, x.descr)
+			}
+			ds = append(ds, "["+strings.Join(d, "; ")+"]")
+		}
+		steps = append(steps, fmt.Sprintf("%d goroutines concurrently: %s; all joined", ng, strings.Join(ds, " || ")))
+		var wg sync.WaitGroup
+		var pp atomic.Value
+		for _, cs := range plan {
+			wg.Add(1)
+			go func(cs []call) {
+				defer wg.Done()
+				defer func() {
+					if v := recover(); v != nil {
+						pp.Store(fmt.Sprint(v))
+					}
+				}()
+				for _, x := range cs {
+					x.fn()
+				}
+			}(cs)
+		}
+		wg.Wait()
+		c.Obs("kube_concurrent_rounds", 1)
+		if v := pp.Load(); v != nil {
+			c.Viol("C13/kube-panic/concurrent-callbacks", "go-zero panicked: "+v.(string), map[string]any{"steps": steps})
+			return
+		}
+		final := k.vfRandObj()
+		var fd string
+		switch r.Pick(3, 3, 2) {
+		case 0:
+			fd = "Update(" + vfDescr(final) + ")"
+			h.Update(final)
+		case 1:
+			fd = "OnAdd(" + vfDescr(final) + ")"
+			h.OnAdd(final, false)
+		default:
+			old := k.vfRandObj()
+			fd = "OnUpdate(" + vfDescr(old) + ", " + vfDescr(final) + ")"
+			h.OnUpdate(old, final)
+		}
+		steps = append(steps, "then sequentially: "+fd)
+		cur = final
+		want := vfAddrs(final)
+		mu.Lock()
+		got := append([]string(nil), last...)
+		ncalls := calls
+		mu.Unlock()
+		var diff []string
+		seen := map[string]bool{}
+		for _, a := range got {
+			if seen[a] {
+				diff = append(diff, "duplicate-address "+a)
+			}
+			seen[a] = true
+			if !want[a] {
+				diff = append(diff, "stale-address "+a)
+			}
+		}
+		for a := range want {
+			if !seen[a] {
+				diff = append(diff, "missing-address "+a)
+			}
+		}
+		if len(diff) > 0 {
+			sort.Strings(diff)
+			kind := strings.SplitN(diff[0], " ", 2)[0]
+			c.Viol("C13/kube-"+kind+"/after-concurrent-callbacks",
+				fmt.Sprintf("after concurrent callbacks had all returned and %s was delivered sequentially, the last published list %v differs from the addresses of that object %v: %s",
+					fd, got, vfSorted(want), strings.Join(diff, ", ")),
+				map[string]any{"steps": steps, "last_published": got, "current_endpoint_addresses": vfSorted(want), "update_calls": ncalls})
+			return
+		}
+	}
+	c.Obs("kube_concurrent_histories", 1)
+	sig := []any{"kube-concurrent"}
+	for _, s := range steps {
+		sig = append(sig, s)
+	}
+	c.Sig(true, sig...)
+	if c.Index < 1 {
+		c.Sample("kube-concurrent", 1, map[string]any{"steps": steps})
+	}
+}
+
 func TestVerifC13K(t *testing.T) {
 	logx.Disable()
 	kit.Run(t, "C13", "kube", kit.N(20000, 600000), vfKubeHistory)
+	kit.Run(t, "C13", "kube-concurrent", kit.N(1500, 40000), vfKubeConcurrent)
 	kit.End()
 }
